@@ -877,6 +877,10 @@ func handleMessage(peer *Peer, m protocol.Message) error {
 			// the length sizes the buffer we upload from
 			return reject(peer, m.Index, m.Begin, m.Length)
 		}
+		if m.Index >= uint32(numPieces(peer)) {
+			// the index is multiplied by the piece length
+			return reject(peer, m.Index, m.Begin, m.Length)
+		}
 		if len(peer.requested) >= reqQ {
 			// head drop, whether or not we manage to tell
 			// the peer: the queue must not grow while we
